@@ -387,7 +387,7 @@ pub enum Key {
 pub fn columns_of(kind: &OpKind) -> bool {
   match kind {
     OpKind::Map { columns } | OpKind::Stream { columns, .. } => *columns,
-    OpKind::CloneThen { then } | OpKind::CloneEditObserve { then, .. } | OpKind::ChildFault { then, .. } => columns_of(then),
+    OpKind::CloneThen { then, .. } | OpKind::CloneEditObserve { then, .. } | OpKind::ChildFault { then, .. } => columns_of(then),
     _ => true,
   }
 }
